@@ -3,9 +3,9 @@
    property's (1024, 262144, 1000, 32768); the model reads them from Gen/Consts.v, which is
    regenerated from the C sources on every run, so a changed constant breaks these proofs.
 
-   Two statements of the property do NOT hold of the code and are stated as refutations
-   (C14_p2c_wrp_refuted, C14_p2c_unw_negative_refuted / C14_work_bound_unw_refuted), next to the
-   strongest statement that does hold. *)
+   (Two statements used to be refuted by the code -- p2c narrowed to int before the range test on wrap, no
+   lower bound and narrowing after the test on unwrap; both were repaired in /repo and the theorems below
+   are the full statements.) *)
 From JoseV Require Import Codec.B64Impl Codec.B64Json Jose.Limits Jose.LimitsProofs.
 Local Open Scope N_scope.
 
@@ -16,92 +16,57 @@ Print Assumptions C14_consts.
 
 (* ---- PBES2 iteration count, unwrap ----------------------------------------------------------------- *)
 
-(* every JSON value of "p2c": an integer above 32768 of whatever size, a value that is not an integer, no
-   value at all => refused, no iteration requested *)
+(* every JSON value of "p2c": an integer above 32768 or below 1 of whatever size, a value that is not an
+   integer, no value at all => refused, no iteration requested *)
 Theorem C14_p2c_unw : forall alg hdr jwk,
   match lookup l_p2c hdr with
   | Some (JInt z) =>
-      (32768 < z)%Z ->
+      (32768 < z \/ z < 1)%Z ->
       pbes2_unw_guard alg hdr jwk = Refuse /\ iters_requested (pbes2_unw_guard alg hdr jwk) = 0%Z
   | _ => pbes2_unw_guard alg hdr jwk = Refuse /\ iters_requested (pbes2_unw_guard alg hdr jwk) = 0%Z
   end.
 Proof. exact p2c_unw. Qed.
 Print Assumptions C14_p2c_unw.
 
-(* what passes is the C int conversion of a count <= 32768; it is the count itself if that is >= -2^31 *)
+(* what passes is the count of the header itself, in 1..32768 (no wrap-around) *)
 Theorem C14_p2c_unw_passes : forall alg hdr jwk r,
   pbes2_unw_guard alg hdr jwk = Proceed r ->
-  exists z, lookup l_p2c hdr = Some (JInt z) /\ (z <= 32768)%Z /\ kr_iter r = wrap32 z /\
-            ((-2147483648 <= z)%Z -> kr_iter r = z).
+  exists z, lookup l_p2c hdr = Some (JInt z) /\ (1 <= z <= 32768)%Z /\ kr_iter r = z.
 Proof. exact p2c_unw_passes. Qed.
 Print Assumptions C14_p2c_unw_passes.
 
-(* zero and negative counts down to -2^31 are not refused by the guard but by the KDF (hypothesis: it
-   accepts no count below 1): no work *)
-Theorem C14_p2c_unw_nonpositive : forall (accepts : Z -> bool),
-  (forall i, (i < 1)%Z -> accepts i = false) ->
-  forall alg hdr jwk z,
-  lookup l_p2c hdr = Some (JInt z) -> (-2147483648 <= z <= 0)%Z ->
-  kdf_work accepts (pbes2_unw_guard alg hdr jwk) = 0%Z.
-Proof. exact p2c_unw_nonpositive. Qed.
-Print Assumptions C14_p2c_unw_nonpositive.
-
-(* REFUTED for counts below -2^31: -2^32 + 1000 is negative and is accepted, as 1000 iterations *)
-Theorem C14_p2c_unw_negative_refuted :
-  exists alg hdr jwk z r,
-    lookup l_p2c hdr = Some (JInt z) /\ (z < 0)%Z /\
-    pbes2_unw_guard alg hdr jwk = Proceed r /\ kr_iter r = 1000%Z /\
-    kdf_work openssl_pbkdf2_accepts (pbes2_unw_guard alg hdr jwk) = 1000%Z.
-Proof. exact p2c_unw_negative_refuted. Qed.
-Print Assumptions C14_p2c_unw_negative_refuted.
-
 (* ---- PBES2 iteration count, wrap ------------------------------------------------------------------- *)
 
-(* whenever the wrap path proceeds the count handed to the KDF is in [1000, 32768]; the count recorded in
-   the header is a JSON integer whose int conversion is that count -- the same number exactly when it fits
-   a C int *)
+(* whenever the wrap path proceeds the count handed to the KDF is in [1000, 32768] and is the number recorded
+   in the produced header *)
 Theorem C14_p2c_wrp : forall alg hdr jwk rec r,
   pbes2_wrp_guard alg hdr jwk = Proceed (rec, r) ->
-  (1000 <= kr_iter r <= 32768)%Z /\
-  exists z, rec = JInt z /\ kr_iter r = wrap32 z /\
-            ((-2147483648 <= z < 2147483648)%Z -> z = kr_iter r /\ (1000 <= z <= 32768)%Z).
+  (1000 <= kr_iter r <= 32768)%Z /\ rec = JInt (kr_iter r) /\
+  match lookup l_p2c hdr with None => kr_iter r = 32768%Z | Some j => j = rec end.
 Proof. exact p2c_wrp. Qed.
 Print Assumptions C14_p2c_wrp.
 
-(* REFUTED: "the produced p2c is within 1000..32768".  p2c = 2^32 + 1000 is narrowed to int before the
-   range test: accepted, 1000 iterations, and the header says 4294968296 *)
-Theorem C14_p2c_wrp_refuted :
-  exists alg hdr jwk z r,
-    pbes2_wrp_guard alg hdr jwk = Proceed (JInt z, r) /\ (32768 < z)%Z /\ kr_iter r <> z /\ kr_iter r = 1000%Z.
-Proof. exact p2c_wrp_refuted. Qed.
-Print Assumptions C14_p2c_wrp_refuted.
+Theorem C14_p2c_wrp_refuses : forall alg hdr jwk,
+  match lookup l_p2c hdr with
+  | Some (JInt z) => (z < 1000 \/ 32768 < z)%Z -> pbes2_wrp_guard alg hdr jwk = Refuse
+  | Some _ => pbes2_wrp_guard alg hdr jwk = Refuse
+  | None => True
+  end.
+Proof. exact p2c_wrp_refuses. Qed.
+Print Assumptions C14_p2c_wrp_refuses.
 
 (* ---- work ------------------------------------------------------------------------------------------- *)
 
-(* iterations performed: at most 32768 on the wrap path always, and on the unwrap path when the count is
-   >= -2^31; 2^31 - 1 otherwise *)
+(* iterations performed: at most 32768 on both paths, whatever the KDF itself accepts *)
 Theorem C14_work_bound : forall (accepts : Z -> bool),
-  (forall i, (i < 1)%Z -> accepts i = false) ->
   (forall alg hdr jwk, (0 <= kdf_work accepts (pbes2_wrp_req alg hdr jwk) <= 32768)%Z) /\
-  (forall alg hdr jwk z, lookup l_p2c hdr = Some (JInt z) -> (-2147483648 <= z)%Z ->
-                         (0 <= kdf_work accepts (pbes2_unw_guard alg hdr jwk) <= 32768)%Z) /\
-  (forall alg hdr jwk, (0 <= kdf_work accepts (pbes2_unw_guard alg hdr jwk) < 2147483648)%Z).
+  (forall alg hdr jwk, (0 <= kdf_work accepts (pbes2_unw_guard alg hdr jwk) <= 32768)%Z).
 Proof.
-  intros accepts H. split; [|split].
+  intros accepts. split.
   - exact (work_bound_wrp accepts).
-  - exact (work_bound_unw accepts H).
-  - exact (work_bound_unw_any accepts H).
+  - exact (work_bound_unw accepts).
 Qed.
 Print Assumptions C14_work_bound.
-
-(* REFUTED without the side condition: p2c = -2^31 - 1 requests 2^31 - 1 iterations on unwrap *)
-Theorem C14_work_bound_unw_refuted :
-  exists alg hdr jwk z r,
-    lookup l_p2c hdr = Some (JInt z) /\ (z < 0)%Z /\
-    pbes2_unw_guard alg hdr jwk = Proceed r /\ kr_iter r = 2147483647%Z /\
-    (32768 < kdf_work openssl_pbkdf2_accepts (pbes2_unw_guard alg hdr jwk))%Z.
-Proof. exact work_bound_unw_refuted. Qed.
-Print Assumptions C14_work_bound_unw_refuted.
 
 (* ---- PBES2 salt ------------------------------------------------------------------------------------- *)
 
